@@ -113,12 +113,12 @@ func (s *smtSession) intValue(term string) (int64, bool) {
 // ---- model -> Go source -----------------------------------------------------------------------
 
 type goBuilder struct {
-	s     *smtSession
-	reg   *Registry
-	pkg   *types.Package // package the test lives in
-	pre   []string       // statements to emit before use
-	n     int
-	fail  string
+	s       *smtSession
+	reg     *Registry
+	pkg     *types.Package // package the test lives in
+	pre     []string       // statements to emit before use
+	n       int
+	fail    string
 	imports map[string]bool
 }
 
